@@ -179,8 +179,8 @@ impl Transaction {
                 //   return Ok(hex::decode("0000000000000000000000000000000000000000000000000000000000000001").map_err(|e| anyhow!(e))?)
                 // }
 
-                let txout = tx.get_output(n_tx_in).ok_or_else(|| BSVErrors::OutOfBounds(format!("Could not get TxOut at index {}", n_tx_in)))?;
-                tx.outputs = vec![txout];
+                tx.get_output(n_tx_in).ok_or_else(|| BSVErrors::OutOfBounds(format!("Could not get TxOut at index {}", n_tx_in)))?;
+                tx.outputs.truncate(n_tx_in + 1);
 
                 for i in 0..tx.outputs.len() {
                     if i < n_tx_in {
